@@ -203,13 +203,14 @@ CHECKS = {
         "~rel.any(~body), bodies that navigate refused (Model/OrmRel.lean) - evaluated the way the ORMs evaluate them (Spec/OrmRelSem.lean). Theorems (Props/C04.lean when present): "
         "reverse_reaches (the back path reaches the outer row IFF the child is one of the rows the forward path leads to), orms_agree (the two ORM plans select the same parents, unconditionally), "
         "dj_sound_partial / sa_sound_partial (the plan selects exactly the parents Spec.evalR denotes) and dj_sound_typed / sa_sound_typed (the same under the static condition relTyped), for every filter "
-        "of the relational grammar, every database with unique keys and every parent row; the hypotheses lamVarsPlain (lambda variables without namespace: all the parser builds) and evalR-defined "
+        "of the relational grammar, every database with unique keys (dbOk: primary keys; keysOk: the columns foreign keys reference - which need not be the primary key: RelKind.toOne fk key) and every parent row; keysOk is "
+        "proved necessary (dj_sound_false_without_keysOk / sa_sound_false_without_keysOk); the hypotheses lamVarsPlain (lambda variables without namespace: all the parser builds) and evalR-defined "
         "(every lambda owner is a to-one path ending in a collection) are NEEDED: the statements without them are refuted in Lean (dj_sound_original_false_toOne / _ns, sa_sound_original_false_toOne). Executed on every run: every leaf of the relational grammar and seeded compositions on a shape database and random "
         "databases through Django, select(Model) and session.query(Model); returned parents compared with Spec.evalR and with the plan models; four other root models whose collections / "
         "relationships share names with the first one's, in sequence in one process.",
    note="Trusted: Lean kernel, standard axioms, Spec/RelSem + Spec/RelElab (reference semantics, verification schema), Spec/OrmRelSem (environment model of the ORMs' join / EXISTS machinery, validated each run), harness. "
         "Scalar leaves are C02 / C03's subject. Hypothesis lambdaClean (bodies two-valued on the related rows: the property quantifies over non-null child columns). Known finding: SQLAlchemy joins a table "
-        "twice without alias when two paths reach it. fix: 1659103 4c4c29b 10e169e f6a5118.",
+        "twice without alias when two paths reach it. fix: 1659103 4c4c29b 10e169e f6a5118 32ff21e (lambdas over a to_field foreign key on Django).",
    design="§6 C04", technique="Lean 4 proof (graph reversal lemma for reverse_relationship, plan soundness by induction on lambda nesting, strip = re-rooting from C17) + differential execution of both ORMs against the relational reference semantics"),
  "C15": dict(
    text="Lean 4 theorems over the shorthands on an abstract query {entity, conditions, joins, ordering, annotations} (Model/Shorthand.lean): sa_conjoins / dj_conjoins (the result keeps exactly the base's rows "
